@@ -204,6 +204,13 @@ var c15magic = []string{"\xef\xbb\xbf", "\xef\xbb", "\xff\xfe", "\xfe\xff", "\xf
 func nontrivialC15(s string) bool { return s == "" || strings.ContainsAny(s, c15special) }
 
 func runC15(c *fw.Ctx) {
+	// before anything else in this process touches the package
+	if c.Begin(1<<24 + c.Block) {
+		if msg := shellFirstUse(); msg != "" {
+			c.Fail(map[string]any{"phase": "first use of the shell package in a fresh process, from 16 goroutines at once"}, "%s", msg)
+		}
+		c.Add("first_use_from_many_goroutines", 1)
+	}
 	rig := newShellRig()
 	defer rig.close()
 	if c.Block == 0 && len(rig.shells) < 2 {
